@@ -361,9 +361,10 @@ class Gen:
             dt = getattr(b.arr, "dtype", None)
             if dt is not None and dt.kind == "c":
                 all_complex = True
-        # XLA's CPU compile time of the library's 3-operand einsums explodes with tensor rank:
-        # ~190 s for an all-float64 rank-8 contraction (4 members at matrix level), > 60 s at rank 14
-        if members > 5 or (members > 3 and not all_complex):
+        # XLA's CPU compile time of the library's 3-operand einsums explodes for REAL dtype:
+        # ~190 s for an all-float64 rank-8 contraction (4 members at matrix level); complex blocks
+        # compile in 0.1 s up to rank 14
+        if members > 7 or (members > 3 and not all_complex):
             return 10**9
         return D
 
